@@ -166,6 +166,8 @@ def check_property(prop, tier, seed, jobs=None, write=True):
     for r, o in refuted:
         confirmed = o.get("confirmed") is True
         what = (f"obligation {o['name']} of {r['item']} refuted by {o['solver']} ({r['file']}:{o['line']})")
+        if o.get("reason"):
+            what += "; " + str(o["reason"])[:200]
         if confirmed:
             what += (f"; counterexample replayed on the real code: it "
                      f"{'returned ' + str(o['real_code'].get('repr')) if o['real_code'].get('status') == 'returned' else 'raised ' + str(o['real_code'].get('exception'))}"
